@@ -17,10 +17,31 @@ import (
 // unsafePtr is the boxed representation of unsafe.Pointer.
 type unsafePtr struct {
 	p   *value
-	aux value // for string/slice header tricks: the original value
+	aux value      // for string/slice header tricks: the original value
+	t   types.Type // pointee type of p when known (pointer arithmetic results)
 }
 
 func (i *interpreter) binop(op token.Token, t types.Type, x, y value) value {
+	if px, ok := x.(ptrInt); ok {
+		if op == token.ADD || op == token.SUB {
+			d := asInt64(y)
+			if op == token.SUB {
+				d = -d
+			}
+			px.off += d
+			return px
+		}
+		x = px.raw()
+	}
+	if py, ok := y.(ptrInt); ok {
+		if op == token.ADD {
+			if _, isP := x.(ptrInt); !isP {
+				py.off += asInt64(x)
+				return py
+			}
+		}
+		y = py.raw()
+	}
 	_, sx := x.(sym)
 	_, sy := y.(sym)
 	if sx || sy {
@@ -285,13 +306,28 @@ func (i *interpreter) conv(tDst, tSrc types.Type, x value) value {
 			return bytesToStr(out)
 		}
 	}
+	if u, ok := x.(uintptr); ok && u == 0 {
+		if b, ok := utDst.(*types.Basic); ok && b.Kind() == types.UnsafePointer {
+			return unsafePtr{}
+		}
+	}
+	if pi, ok := x.(ptrInt); ok {
+		if b, ok := utDst.(*types.Basic); ok && b.Kind() == types.UnsafePointer {
+			c, ct := i.resolvePtrInt(pi)
+			return unsafePtr{p: c, t: ct}
+		}
+		x = pi.raw()
+	}
 	if up, ok := x.(unsafePtr); ok {
-		if _, ok := utDst.(*types.Pointer); ok {
+		if dp, ok := utDst.(*types.Pointer); ok {
 			if up.p == nil {
 				if up.aux != nil {
 					panic(unsupported("unsafe pointer cast of string/slice header"))
 				}
 				return (*value)(nil)
+			}
+			if up.t != nil {
+				return descendTo(up.p, up.t, dp.Elem())
 			}
 			return up.p
 		}
